@@ -101,11 +101,12 @@ func runC17(w *mc.Worker) {
 	}
 	var stages []bound
 	if w.Tier == "quick" {
-		stages = []bound{{"w2-e1", 2, 2, 1, false}, {"v2-e1", 2, 1, 1, true}}
+		stages = []bound{{"w2-e1", 2, 2, 1, false}, {"v1-e1", 1, 1, 1, true}}
 	} else {
 		stages = []bound{{"w3-e1", 3, 2, 1, false}, {"v2-e2", 2, 1, 2, true}, {"v3-e1", 3, 2, 1, true}}
 	}
 	flagsOn := map[string]struct{}{interpreter.ExperimentalOverdraftFunctionFeatureFlag: {}}
+	c17Nested(w, flagsOn)
 	for _, b := range stages {
 		b := b
 		desc := fmt.Sprintf("valid scripts of weight <= %d (depth <= %d) with <= %d type-breaking edit(s); rich and poor sheets", b.weight, b.depth, b.edits)
@@ -202,4 +203,76 @@ func runC17(w *mc.Worker) {
 			})
 		})
 	}
+}
+
+// c17Nested: send-all scripts whose source nests capped scopes (a cap around an allotment, a
+// cap inside a cap, several capped siblings) with <= E edits, so that the checker's send-all
+// bookkeeping is exercised across scope entry / exit.
+func c17Nested(w *mc.Worker, flagsOn map[string]struct{}) {
+	U := "USD"
+	capd := func(n string, s gen.Source) gen.Source { return &gen.SrcCapped{Cap: gen.Mon(U, n), From: s} }
+	allot := func(a, b gen.Source) gen.Source {
+		return &gen.SrcAllot{Items: []*gen.SrcAllotItem{{A: gen.Port("1/2"), From: a}, {A: &gen.Remaining{}, From: b}}}
+	}
+	bases := []func() gen.Source{
+		func() gen.Source { return lst(capd("10", allot(sa("a"), sa("b"))), sa("b")) },
+		func() gen.Source { return lst(capd("5", capd("3", sa("a"))), sa("b")) },
+		func() gen.Source { return lst(capd("5", lst(sa("a"), capd("2", sa("b")))), sa("b"), capd("1", sa("world"))) },
+		func() gen.Source { return lst(sa("a"), capd("4", allot(capd("1", sa("a")), sa("b"))), over("b", U, "2")) },
+		func() gen.Source { return capd("7", lst(capd("2", sa("world")), sa("a"))) },
+	}
+	edits := 1
+	if w.Tier == "thorough" {
+		edits = 2
+	}
+	w.Stage(fmt.Sprintf("nested-sendall-e%d", edits), fmt.Sprintf("%d send-all scripts with nested capped scopes, <= %d edit(s) each (incl. replacing any source leaf by @world / unbounded overdraft / allotment); balances a=b=5", len(bases), edits), func() {
+		w.Outer("nested-sendall/base", 0, func(o *mc.Explorer) {
+			bi_ := o.Choose(len(bases))
+			if !w.Mine(fmt.Sprint("nested", bi_)) {
+				return
+			}
+			w.Owned()
+			w.Inner(edits, func(in *mc.Explorer) {
+				prog := &gen.Program{Stmts: []gen.Stmt{sendAllS(U, bases[bi_](), da("x"))}}
+				var eds []string
+				for i := 0; i < edits; i++ {
+					if in.ChooseW(2, []int{0, 1}) == 0 {
+						break
+					}
+					d, ok := c17Edit(in, prog)
+					if !ok {
+						return
+					}
+					eds = append(eds, d)
+				}
+				text := gen.Text(prog)
+				var res analysis.CheckResult
+				if p, _ := guard(func() { res = analysis.CheckSource(text) }); p != "" {
+					return
+				}
+				if res.GetErrorsCount() > 0 {
+					w.Eval(text, false, "check-reports-errors")
+					return
+				}
+				pr, ok := parseQuiet(text)
+				if !ok {
+					return
+				}
+				bal := env.Bal{"a": {U: bi(5)}, "b": {U: bi(5)}}
+				out := RunReal(pr, nil, env.New(env.Exact, bal, nil), flagsOn)
+				nAll := len(res.Diagnostics)
+				w.Eval(text, len(eds) > 0, fmt.Sprintf("nested edits=%d diags=%d run=%s", len(eds), nAll, out.Class()))
+				if out.Err == nil {
+					return
+				}
+				c := Case{Script: text, Balances: balStr(bal), Observed: out.ErrType + ": " + out.Err.Error(), Extra: map[string]any{"edits": eds, "diagnostics": diagSet(res)}}
+				switch {
+				case staticClasses[out.ErrType]:
+					w.Violation("C17.static-failure:"+out.ErrType, "the checker reported no error, yet execution failed with "+out.ErrType, len(text), c)
+				case nAll == 0 && shapeClasses[out.ErrType]:
+					w.Violation("C17.sendall-shape:"+out.ErrType, "the checker reported nothing at all, yet execution failed because of the shape of a send-all source", len(text), c)
+				}
+			})
+		})
+	})
 }
